@@ -8,10 +8,11 @@ import Drv.Util
 import Nq.Sched
 import Nq.Spec.Sched
 import Nq.SchedHist
+import Nq.SchedFail
 import Nq.Spec.SchedHist
 import Nq.SelPrep
 
-open Nq Nq.Sched Nq.Spec.Sched Nq.SchedHist Drv
+open Nq Nq.Sched Nq.Spec.Sched Nq.SchedHist Nq.SchedFail Drv
 
 def chanOf (s : String) : Option Chan :=
   if s == "0" then some .loc else if s == "1" then some .rem else none
@@ -124,6 +125,12 @@ def parseEv (t : String) : Option Ev :=
   match t.splitOn "/" with
   | [h] =>
     if h.startsWith "w" then (h.drop 1).toString.toInt?.map Ev.wake else some (.plain h)
+  | [h, a] =>
+    if h.startsWith "d" then
+      match (h.drop 1).toString.splitOn "," with
+      | [id, gone] => do some (.done (← id.toNat?) (gone == "1") (← parseElts a))
+      | _ => none
+    else none
   | ["L", a, b, c] => do some (.load (← parseElts a) (← parseElts b) (← parseElts c))
   | ["a", a, b] => do some (.alrm (← parseElts a) (← parseElts b))
   | ["f", a, b] => do some (.fin (← parseElts a) (← parseElts b))
@@ -312,13 +319,151 @@ def oracleStep (lifetime : Int) (o : OSt) (stp : Step) (ev : Ev) : OSt × Option
     | some (id, c) => (o', some s!"channel file {if c == Chan.loc then "local" else "remote"}/{id} exists but the message is not scheduled on that channel (lost)")
     | none => (o', none)
 
+/-! ### the failure-path events (Nq.SchedFail): messdone / pqdone, cut passes, pqfinish with failing utimes -/
+
+def mdFaultOf (s : String) : Option MdFault :=
+  if s == "" then some .none else if s == "l" then some .statLoc else if s == "r" then some .statRem
+  else if s == "t" then some .statTodo else if s == "n" then some .statInfo else if s == "b" then some .bounce
+  else if s == "u" then some .unlinkInfo else none
+
+def parseBad (l : List String) : Option (List (Chan × Nat)) :=
+  l.mapM fun t => match t.splitOn ":" with
+    | [c, i] => do some ((← chanOf c), (← i.toNat?))
+    | _ => none
+
+def parseFStep (t : String) : FStep :=
+  let body := (t.drop 1).toString
+  match t.front with
+  | 'd' =>
+    if body == "" then .done .none
+    else match body.splitOn "," with
+      | ["", f] => match mdFaultOf f with | some ft => .done ft | none => .old .bad
+      | _ => .old .bad
+  | 'f' =>
+    if body == "" then .old .fin
+    else match body.splitOn "," with
+      | "" :: l => match parseBad l with | some bad => .finF bad | none => .old .bad
+      | _ => .old .bad
+  | 'p' => match body.splitOn "," with
+    | [c, l, f] =>
+      if f == "r" || f.startsWith "x" then
+        match chanOf c, (if f == "r" then some 0 else (f.drop 1).toString.toNat?) with
+        | some ch, some k => .passCut ch (if l.isEmpty then [90] else l.toUTF8.toList) k
+        | _, _ => .old .bad
+      else .old (parseStep t)
+    | _ => .old (parseStep t)
+  | _ => .old (parseStep t)
+
+def mtKnown (o : OSt) (id : Nat) (c : Chan) : Option Int :=
+  match (o.mts.find? (·.1 == (id, c))).map (·.2) with
+  | some (some t) => some t
+  | _ => none
+
+/-- the property oracle for the failure-path events, on the implementation's event only: executable forms of
+C15_fail_messdone / C15_fail_noloss (pqdone: only the due minimum moves; afterwards pqdone is the rest or the rest plus the
+message strictly in the future; a message without channel files that is still on disk stays in pqdone; a message leaves the
+disk only without an injected failure and without channel files), C15_fail_cut (re-inserted exactly at its retry time, which is
+in the future and the quadratic formula; records before the cut handled, the rest untouched; pqdone untouched) and
+C15_fail_utimes (utimes ok: mtime = due time; utimes failed: the file keeps the mtime it had). -/
+def oracleFail0 (lifetime : Int) (o : OSt) (stp : FStep) (ev : Ev) : OSt × Option String :=
+  match stp, ev with
+  | .old x, _ => oracleStep0 lifetime o x ev
+  | .done f, .done id gone d =>
+    let o' := { o with done := d, atFin := none }
+    if !heapB d.toArray then (o', some "pqdone heap order broken") else
+    match minDt o.done with
+    | none => (o', if id = 0 && d.isEmpty then none else some "pqdone was empty but messdone ran or pqdone changed")
+    | some m =>
+      if m > o.clock then
+        (o', if id = 0 && sameMultiset d o.done then none else some s!"no pqdone entry is due (earliest {m}, now {o.clock}) but messdone ran or pqdone changed")
+      else
+        match o.done.find? (fun e => e.id == id && e.dt == m) with
+        | none => (o', some s!"a pqdone entry is due at {m} but messdone was called for {id}, which is not an earliest-due entry")
+        | some e =>
+          let rest := (removeOne e o.done).getD o.done
+          let hasChan := (o.recs.find? (·.1 == (id, Chan.loc))).isSome || (o.recs.find? (·.1 == (id, Chan.rem))).isSome
+          let onDisk := (o.births.find? (·.1 == id)).isSome
+          let reins := d.find? (fun ne => ne.id == id && decide (ne.dt > o.clock) && sameMultiset d (ne :: rest))
+          let o' := if gone then { o' with births := o'.births.filter (fun x => !(x.1 == id)), bounce := o'.bounce.filter (fun x => !(x.1 == id)) } else o'
+          if gone && onDisk && (f != MdFault.none || hasChan) then
+            (o', some s!"message {id} was removed from the disk by messdone although {if hasChan then "it still has a channel file" else "a system call failed"}")
+          else if !sameMultiset d rest && reins.isNone then
+            (o', some s!"pqdone after messdone({id}) is neither the rest nor the rest plus the message at a time in the future of {o.clock}")
+          else if !gone && onDisk && !hasChan && !(d.any (·.id == id)) then
+            (o', some s!"message {id} is still on disk without channel files but no longer in pqdone (lost)")
+          else if f != MdFault.none && onDisk && !hasChan && reins.isNone then
+            (o', some s!"after a failed system call in messdone({id}) the message was not put back into pqdone in the future")
+          else (o', none)
+  | .passCut c letters k, .pass id retry dying ndel recs npar ntoo a b d =>
+    let before := lookupD (id, c) [] o.recs
+    if id = 0 || before.length ≤ k then oracleStep0 lifetime o (.pass c letters .none) ev else
+    let o' := { o with q0 := a, q1 := b, done := d, atFin := none }
+    let prev := o.q c
+    if !(heapB a.toArray && heapB b.toArray && heapB d.toArray) then (o', some "heap order broken") else
+    match prev.find? (·.id == id) with
+    | none => (o', some s!"started message {id} which was not scheduled on this channel")
+    | some e =>
+      let birth := lookupD id 0 o.births
+      let age := o.clock - birth
+      let (ans, p, t, kk) := specAnswer dying letters (before.take k) 0
+      let after := ans ++ before.drop k
+      let (p0, t0) := lookupD id (0, 0) o.bounce
+      let owed := (o.backoff.find? (·.1 == (id, c))).map (·.2)
+      let o' := { o' with recs := setKey (id, c) after o'.recs, bounce := setKey id (npar, ntoo) o'.bounce,
+                          mts := setKey (id, c) none o'.mts,
+                          backoff := match specRetry o.clock birth c with
+                            | some r => setKey (id, c) r o'.backoff
+                            | none => o'.backoff.filter (fun x => !(x.1 == (id, c))) }
+      let rest := (removeOne e prev).getD prev
+      if e.dt > o.clock then (o', some s!"message {id} started at {o.clock}, before its retry time {e.dt}")
+      else if (match owed with | some r => decide (o.clock < r) | none => false) then
+        (o', some s!"message {id} attempted again at {o.clock}, before the back-off time {owed.getD 0} owed since its last temporary failure")
+      else if some e.dt != minDt prev then (o', some s!"message {id} (due {e.dt}) started while an earlier-due message waits")
+      else if retry ≤ o.clock then (o', some s!"retry time {retry} is not in the future of {o.clock}")
+      else if 0 ≤ age && age < two32 && !isRetryB o.clock birth c retry then (o', some s!"retry time {retry} is not birth+(isqrt(age)+skip)^2 for birth {birth} now {o.clock}")
+      else if dying != decide (o.clock > birth + lifetime) then (o', some s!"expiry flag {dying} wrong for birth {birth} lifetime {lifetime} now {o.clock}")
+      else if recs != recsString (some after) then (o', some s!"records after the pass cut short at record {k} are {recs}, the property requires {recsString (some after)}")
+      else if npar != p0 + p || ntoo != t0 + t then (o', some s!"bounce paragraphs {npar}/{ntoo} (too long), required {p0 + p}/{t0 + t}")
+      else if ndel != kk then (o', some s!"{ndel} deliveries started for {kk} pending recipients before the cut")
+      else if !sameMultiset (o'.q c) ({ dt := retry, id := id } :: rest) then
+        (o', some s!"after a pass cut short at record {k} message {id} is not rescheduled exactly at its retry time {retry} (lost or early)")
+      else if !sameMultiset d o.done then (o', some "a pass cut short changed pqdone")
+      else (o', none)
+  | .finF bad, .fin m0 m1 =>
+    let isBad (c : Chan) (id : Nat) := bad.contains (c, id)
+    let ok (c : Chan) (q m : List Elt) := q.all fun e =>
+      if isBad c e.id then
+        (match mtKnown o e.id c with
+         | some t => m.contains { dt := t, id := e.id }
+         | none => m.any (·.id == e.id))
+      else m.contains e
+    let persisted (c : Chan) (q m : List Elt) := q.map fun e =>
+      if isBad c e.id then (match m.find? (·.id == e.id) with | some x => x | none => e) else e
+    let o' := { o with atFin := some (persisted .loc o.q0 m0, persisted .rem o.q1 m1), q0 := [], q1 := [], live := false,
+                       mts := (m1.foldl (fun acc e => setKey (e.id, Chan.rem) (some e.dt) acc)
+                                (m0.foldl (fun acc e => setKey (e.id, Chan.loc) (some e.dt) acc) o.mts)),
+                       backoff := o.backoff.filter (fun x => !(isBad x.1.2 x.1.1)) }
+    if ok .loc o.q0 m0 && ok .rem o.q1 m1 then (o', none)
+    else (o', some "pqfinish with a failing utimes: a file whose utimes succeeded does not carry its due time, or a file whose utimes failed did not keep its mtime")
+  | _, .plain "bad" => (o, none)
+  | _, _ => (o, some "event does not match the step")
+
+def oracleFStep (lifetime : Int) (o : OSt) (stp : FStep) (ev : Ev) : OSt × Option String :=
+  let (o', why) := oracleFail0 lifetime o stp ev
+  match why with
+  | some w => (o', some w)
+  | none =>
+    match lostFile o' with
+    | some (id, c) => (o', some s!"channel file {if c == Chan.loc then "local" else "remote"}/{id} exists but the message is not scheduled on that channel (lost)")
+    | none => (o', none)
+
 def handleHist (st : Stats) (line : String) (rest : List String) : IO Stats := do
   match rest with
   | [lts, script, events] =>
     match lts.toInt? with
     | none => IO.println s!"DISAGREE unparsable history {line.take 200}"; return { st with disagree := st.disagree + 1, cases := st.cases + 1 }
     | some lifetime =>
-      let steps := if script == "-" then [] else (script.splitOn ";").map parseStep
+      let steps := if script == "-" then [] else (script.splitOn ";").map parseFStep
       let evs := if events == "-" then [] else (events.splitOn ";").map parseEv
       let h := hashBytes line.toUTF8.toList
       let fresh := !st.seen.contains h
@@ -337,10 +482,24 @@ def handleHist (st : Stats) (line : String) (rest : List String) : IO Stats := d
         match ev? with
         | none => if dis.isNone then dis := some s!"step {k}: unparsable event"
         | some ev =>
-          let (ms', mev) := step ms stp
+          let (ms', mev0) := fstep ms stp
           ms := ms'
+          let mut mev := mev0
+          let mut evc := ev
+          -- utimes failed on a file whose mtime the history does not fix (a record was marked since: the real FS gave it the time
+          -- of day): adopt the implementation's mtime for that file, compare the rest
+          match stp, mev0, ev with
+          | .finF bad, .fin l0 l1, .fin m0 m1 =>
+            let unk (c : Chan) (e : Elt) := bad.contains (c, e.id) && (mtKnown os e.id c).isNone
+            for e in m0 do
+              if unk .loc e then match ms.find e.id with | some m => ms := ms.update (m.setMt .loc e.dt) | none => pure ()
+            for e in m1 do
+              if unk .rem e then match ms.find e.id with | some m => ms := ms.update (m.setMt .rem e.dt) | none => pure ()
+            mev := .fin (l0.filter fun e => !unk .loc e) (l1.filter fun e => !unk .rem e)
+            evc := .fin (m0.filter fun e => !unk .loc e) (m1.filter fun e => !unk .rem e)
+          | _, _, _ => pure ()
           -- after pqstart the array order depends on readdir: compare as multisets and adopt the implementation's arrays
-          match mev, ev with
+          match mev, evc with
           | .load a b d, .load a' b' d' =>
             if sameMultiset a a' && sameMultiset b b' && sameMultiset d d' then
               ms := { ms with q0 := a'.toArray, q1 := b'.toArray, done := d'.toArray }
@@ -351,15 +510,26 @@ def handleHist (st : Stats) (line : String) (rest : List String) : IO Stats := d
               -- model does not fix; same messages per channel: adopt the implementation's due times (the oracle checks the known ones)
               ms := { ms with q0 := a'.toArray, q1 := b'.toArray, done := d'.toArray }
             else if dis.isNone then dis := some s!"step {k}: model loads {showElts a}/{showElts b}/{showElts d}"
-          | _, _ => if !(mev == ev) && dis.isNone then dis := some s!"step {k}: model event {repr mev}"
+          | _, _ => if !(mev == evc) && dis.isNone then dis := some s!"step {k}: model event {repr mev}"
           match stp, ev with
-          | .pass _ _ ft, .pass id _ dying _ _ _ _ _ _ _ =>
+          | .old (.pass _ _ ft), .pass id _ dying _ _ _ _ _ _ _ =>
             st := st.bump (if id = 0 then (if ft.trouble then "hist_pass_none_or_trouble" else "hist_pass_none") else if dying then "hist_pass_expiring" else "hist_pass_started")
             if ft != Fault.none then st := st.bump "hist_pass_with_fault"
-          | .fin, _ => st := st.bump "hist_term_restart"
-          | .alrm, _ => st := st.bump "hist_alrm"
+          | .old .fin, _ => st := st.bump "hist_term_restart"
+          | .old .alrm, _ => st := st.bump "hist_alrm"
+          | .done f, .done id gone _ =>
+            st := st.bump (if id = 0 then "hist_messdone_nothing_due" else if gone then "hist_messdone_finished" else if f != MdFault.none then "hist_messdone_failed_requeued" else "hist_messdone_false_alarm")
+          | .passCut c _ kcut, .pass id _ _ _ _ _ _ _ _ _ =>
+            if id != 0 && kcut < (lookupD (id, c) [] os.recs).length then st := st.bump "hist_pass_cut_short" else st := st.bump "hist_pass_cut_not_reached"
+          | .finF bad, .fin m0 m1 =>
+            st := st.bump "hist_term_restart"
+            let hit := (os.q0.filter fun e => bad.contains (Chan.loc, e.id)).length + (os.q1.filter fun e => bad.contains (Chan.rem, e.id)).length
+            if hit > 0 then st := st.bump "hist_term_utimes_failed"
+            let early := (os.q0.any fun e => bad.contains (Chan.loc, e.id) && m0.any (fun x => x.id == e.id && decide (x.dt < e.dt))) ||
+                         (os.q1.any fun e => bad.contains (Chan.rem, e.id) && m1.any (fun x => x.id == e.id && decide (x.dt < e.dt)))
+            if early then st := st.bump "hist_term_utimes_failed_persisted_earlier_than_due"
           | _, _ => pure ()
-          let (os', why) := oracleStep lifetime os stp ev
+          let (os', why) := oracleFStep lifetime os stp ev
           os := os'
           match why with
           | some w => if orc.isNone then orc := some s!"step {k}: {w}"
@@ -567,12 +737,40 @@ def handleLoop (st : Stats) (line : String) (rest : List String) : IO Stats := d
     let mut nrestart := 0
     let mut npcut := 0
     let mut nowedAcross := 0
+    -- injected unlink / utimes failures (F records): after a failed unlink of a finished channel file (job_close) or of info/<id>
+    -- (messdone) the message must be back on that channel heap / in pqdone, due no later than the time of the failure +
+    -- SLEEP_SYSFAIL, at the next select (never lost; theorems C15_jobclose / C15_fail_messdone); a failed utimes at exit exempts
+    -- that channel file from the back-off oracle (theorem C15_fail_utimes: the file keeps its old mtime, "retried too soon")
+    let mut pendingF : List (Int × String × Nat) := []     -- time, "local"/"remote"/"info", id
+    let mut freshArrivals : List Nat := []                 -- arrived in todo/, no delivery command yet: todo_do() unlinks stale info/local/remote files of the
+                                                           -- new message first; a failure THERE leaves the message in todo/ (not this property's subject)
+    let mut nFunlink := 0
+    let mut nFutimes := 0
+    let mut nFchecked := 0
+    let mut nFexempt := 0
     for t in (if recs == "-" then [] else recs.splitOn ";") do
-      if t.startsWith "g:" && t.endsWith ":A" then
+      if t.startsWith "F:" then
+        match t.splitOn ":" with
+        | ["F", ts, what, path] =>
+          match ts.toInt?, path.splitOn "/" with
+          | some tf, dir :: restp =>
+            let id := (restp.getLast?.bind (·.toNat?)).getD 0
+            if what == "unlink" then
+              nFunlink := nFunlink + 1
+              if (dir == "local" || dir == "remote" || dir == "info") && !freshArrivals.contains id then pendingF := (tf, dir, id) :: pendingF
+            else if what == "utimes" then
+              nFutimes := nFutimes + 1
+              let ch := if dir == "local" then 0 else 1
+              if owed.any (fun x => x.1.1 == ch && x.1.2.1 == id) then nFexempt := nFexempt + 1
+              owed := owed.filter (fun x => !(x.1.1 == ch && x.1.2.1 == id))
+          | _, _ => if dis.isNone then dis := some s!"unparsable fault record {t}"
+        | _ => if dis.isNone then dis := some s!"unparsable fault record {t}"
+      else if t.startsWith "g:" && t.endsWith ":A" then
         alrm := 2
         owed := []
       else if t.startsWith "i:" then
         openAt := []
+        pendingF := []
         match t.splitOn ":" with
         | ["i", _, n] =>
           inc := n.toNat?.getD inc
@@ -581,7 +779,9 @@ def handleLoop (st : Stats) (line : String) (rest : List String) : IO Stats := d
       else if t.startsWith "n:" then
         -- an arrival may reuse the number of a message that has left the queue: its birth is the time todo/ is processed (not fixed here)
         match t.splitOn ":" with
-        | ["n", _, ids] => births := births.filter (fun x => some x.1 != ids.toNat?)
+        | ["n", _, ids] =>
+          births := births.filter (fun x => some x.1 != ids.toNat?)
+          match ids.toNat? with | some i => freshArrivals := i :: freshArrivals | none => pure ()
         | _ => pure ()
       else if t.startsWith "q:" then
         match t.splitOn ":" with
@@ -596,6 +796,7 @@ def handleLoop (st : Stats) (line : String) (rest : List String) : IO Stats := d
           match ts.toInt?, cs.toNat?, ids.toNat?, att.toNat?, rs.toInt? with
           | some tc, some ch, some id, some a, some retry =>
             let key := (ch, id, recip)
+            freshArrivals := freshArrivals.filter (· != id)
             match owed.find? (·.1 == key) with
             | some (_, (r, zi, tz)) =>
               if zi < inc then nowedAcross := nowedAcross + 1
@@ -635,6 +836,14 @@ def handleLoop (st : Stats) (line : String) (rest : List String) : IO Stats := d
           k := k + r.count
           nsel := nsel + r.count
           let s := r.snap
+          for (tf, dir, id) in pendingF do
+            nFchecked := nFchecked + 1
+            let lim := tf + Nq.Sched.SLEEP_SYSFAIL
+            let m : Option Int := if dir == "local" then (s.chans.getD 0 {}).pqMin else if dir == "remote" then (s.chans.getD 1 {}).pqMin else s.pqdoneMin
+            let ok := match m with | some d => decide (d ≤ lim) | none => false
+            if !ok && orc.isNone then
+              orc := some s!"select {k}: unlink of {dir}/{id} failed at {tf} (T0+{tf - 1000000000}) but at the next select {if dir == "info" then "pqdone" else "the channel heap"} has no entry due by {lim} (failure time + SLEEP_SYSFAIL): the message is lost or put off longer than documented; snap={t}"
+          pendingF := []
           for (ci, cs) in [(0, s.chans.getD 0 {}), (1, s.chans.getD 1 {})] do
             if cs.passOpen then
               if (openAt.find? (·.1 == ci)).isNone then openAt := (ci, s.recent) :: openAt
@@ -695,6 +904,10 @@ def handleLoop (st : Stats) (line : String) (rest : List String) : IO Stats := d
     st := bumpN st "loop_clean_restarts" nrestart
     st := bumpN st "loop_passes_cut_short_by_term" npcut
     st := bumpN st "loop_deferred_recipients_restarted_by_a_later_daemon" nowedAcross
+    st := bumpN st "loop_injected_unlink_failures" nFunlink
+    st := bumpN st "loop_injected_utimes_failures_at_exit" nFutimes
+    st := bumpN st "loop_unlink_failures_checked_requeued_within_sysfail" nFchecked
+    st := bumpN st "loop_utimes_failures_exempting_a_deferred_recipient" nFexempt
     st := bumpN st "loop_blocked_sleeps_with_pqdone_entry" nbDone
     st := bumpN st "loop_blocked_sleeps_with_entry_on_an_idle_channel" nbChan
     st := bumpN st "loop_blocked_sleeps_with_entry_on_the_blocked_channels_own_heap" nbOwn
